@@ -12,6 +12,26 @@ type Violation struct {
 	Class  string `json:"class"`            // e.g. model-mismatch, linearizability, race, deadlock, panic
 	Sub    string `json:"sub,omitempty"`    // stable sub-class used in signatures, e.g. stale-value
 	Detail string `json:"detail,omitempty"` // free text for the reader
+	// Subs lists every sub-class seen in the run when there can be several
+	// (one per race report); Sub is the first of them.
+	Subs []string `json:"subs,omitempty"`
+}
+
+// Matches reports whether got shows the violation want: same class and
+// want's sub-class among got's.
+func (want *Violation) Matches(got *Violation) bool {
+	if got == nil || got.Class != want.Class {
+		return false
+	}
+	if got.Sub == want.Sub {
+		return true
+	}
+	for _, s := range got.Subs {
+		if s == want.Sub {
+			return true
+		}
+	}
+	return false
 }
 
 // Signature identifies a finding: property/class/sub.
